@@ -111,7 +111,11 @@ class DataflowAnalysisAttacher(Transformer):
             The sets of defined and used symbols (in that order).
         """
         defines = {strip_nested_dimensions(expr)}
-        uses = cls._symbols_from_expr(getattr(expr, 'dimensions', ()))
+        # The subscripts of the variable and of all its parents (``s(i)%v(j)``) are read
+        dimensions = tuple(
+            d for e in (*getattr(expr, 'parents', ()), expr) for d in getattr(e, 'dimensions', None) or ()
+        )
+        uses = cls._symbols_from_expr(dimensions)
         return defines, uses
 
     # Abstract node (also called from every node type for integration)
